@@ -180,3 +180,12 @@ def _unwrap(f):
 
 CHECKS = [Check("flow_balance", _unwrap(body_flow), lambda: {"c": table_case()}, quick=2500, thorough=12000,
                 quick_shards=12)]
+
+from . import C05_handlers  # noqa: E402  (handler part: the order in which the composite-object handlers fill the scheme)
+CHECKS = CHECKS + C05_handlers.CHECKS
+RULE += (" Sub-check handler_flow: one configuration of two molecules (drawn positions, charge patterns, direction) "
+         "(two- or three-site molecules) is held fixed and each point mass with positive factor derivative is made the active unit of the real "
+         "TwoCompositeObjectSummedBoundingPotentialEventHandler in turn (in-state put back to the common positions before the out-state is asked for, "
+         "confirmation draw 0); the lifting draw is swept (65-point grid + bisection of the break points) and the "
+         "lifted inflow sum_a max(q_a,0) P(a->k) is compared with |q_k| for every negative k, the q from the "
+         "independent Ewald oracle. Non-trivial: >=2 positive derivatives.")
